@@ -4,6 +4,7 @@
 From Coq Require Import QArith Reals List.
 Import ListNotations.
 From TT Require Import Num NumR NumI ParamI Tree M_like M_data G_datatype P_like P_data P_like_param.
+From TT Require Import M_prune_loop G_prune P_prune_loop.
 Open Scope R_scope.
 
 (* Felsenstein pruning, EVERY indexed binary tree, every number of states S, every family of
@@ -16,6 +17,47 @@ Theorem C01_pruning_is_marginalisation : forall S P tip,
   lk (prune NumR P tip t) s 0 = rsum (map (weight NumR P tip) (enum_at S t s)).
 Proof. exact prune_is_sum. Qed.
 Print Assumptions C01_pruning_is_marginalisation.
+
+(* THE LOOP OF THE CODE.  [g_update] is regenerated on every run from the body of
+   `for node, left, right in post_indexing:` in calculate_treelikelihood_discrete (translator T8);
+   [loop] runs it over a mutable array of partials.  For every tree whose node numbering is sound (wfi:
+   internal indices pairwise distinct and different from the leaf indices), every number type, every
+   matrices and every initial array holding the tip vectors at the leaf indices, the entry the loop
+   leaves at the root index is the structural recursion [prune] — which the previous theorem proves
+   equal to the marginalisation.  A wrong child index, a transposed product, an update written to the
+   wrong slot change the regenerated term and this proof no longer checks. *)
+Theorem C01_array_loop_is_pruning : forall (T : Type) (N : Num T) (mats : nat -> mat) (tip : nat -> vec) t a,
+  wfi t -> (forall i, In i (ileaves t) -> a i = tip i) ->
+  loop (g_update N mats) (postorder t) a (iidx t) = prune N mats tip t.
+Proof. exact @loop_computes_prune. Qed.
+Print Assumptions C01_array_loop_is_pruning.
+
+(* setup_indexes numbers the leaves by taxon position and the internal nodes from the number of taxa
+   upwards in post-order: that numbering is sound for every tree ... *)
+Theorem C01_indexing_is_sound : forall t,
+  (forall i, In i (tlabels t) -> (i < leaves t)%nat) -> wfi (index_tree t).
+Proof. exact index_tree_wfi. Qed.
+Print Assumptions C01_indexing_is_sound.
+
+(* ... the entry read at the end, post_indexing[-1][0], is the root, and the returned expression
+   (regenerated) is  sum over sites of weight * ln(freqs . sum over categories of props * partials[root]),
+   for the tip-partial and for the tip-state function *)
+Theorem C01_loop_result_is_read_at_the_root : forall i l r, root_of_last (postorder (INode i l r)) = i.
+Proof. exact root_of_last_postorder. Qed.
+Theorem C01_returned_expression : g_return = expected_return /\ g_return_states = expected_return.
+Proof. split; reflexivity. Qed.
+Print Assumptions C01_returned_expression.
+
+(* The tip-STATE loop (regenerated from calculate_treelikelihood_tip_states_discrete) performs the same
+   update as the tip-partial loop whenever, at the children that are tips, selecting the column of the
+   augmented matrix by the tip state equals the matrix-vector product with the tip vector — which
+   C01_tip_state_is_indicator / C01_tip_unknown_is_missing establish for indicator / all-ones vectors. *)
+Theorem C01_tip_state_loop_is_tip_partial_loop : forall (T : Type) (N : Num T) S tc mats states a node lf rt,
+  ((lf < tc)%nat -> matvec N (mats lf) (a lf) = tip_message_state N S (mats lf) (states lf)) ->
+  ((rt < tc)%nat -> matvec N (mats rt) (a rt) = tip_message_state N S (mats rt) (states rt)) ->
+  g_update_states N S tc mats states a node lf rt = g_update N mats a node lf rt.
+Proof. exact @g_update_states_eq. Qed.
+Print Assumptions C01_tip_state_loop_is_tip_partial_loop.
 
 (* The reported site likelihood (root frequencies, rate-category mixture) is the sum over every
    assignment of states and every rate category of root frequency x branch probabilities x tips. *)
